@@ -27,7 +27,7 @@ VARIABLES l, sN, o
 \*         is logged before that line but already meets the new expectation]
 EP == {"c", "s"}
 Fresh == [res |-> FALSE, expA |-> 0, expN |-> 0, wait |-> FALSE, tw |-> 0, rtw |-> 0,
-          nackT |-> {}, fireT |-> {}, quitT |-> -1000000, recent |-> {}]
+          nackT |-> {}, fireT |-> {}, quitT |-> -1000000, recent |-> {}, lastDone |-> -1000000]
 Ev == Trace[l]
 Is(e) == l <= Len(Trace) /\ Trace[l].ev = e
 Adv == l' = l + 1
@@ -69,15 +69,18 @@ TQuit == /\ Is("closeQuit") /\ Adv /\ UNCHANGED sN
 TWait == /\ Is("syncWait") /\ Adv /\ UNCHANGED sN
          /\ o' = [o EXCEPT ![Ev.ep].wait = TRUE, ![Ev.ep].tw = Ev.t, ![Ev.ep].rtw = Ev.rt]
 
+\* (the third disjunct: a goroutine woken when the previous wait ended passes
+\* the signal on - a wait that begins at that very instant ends at once)
 Cause(x, t) == \/ \E c \in x.nackT \cup x.fireT : Near(c, t) /\ c >= x.tw - TOL
                \/ Near(x.quitT, t)
+               \/ Near(x.lastDone, t) /\ Near(x.tw, t)
 TDone == /\ Is("syncDone") /\ Adv /\ UNCHANGED sN
          /\ LET x == o[Ev.ep] IN
             /\ x.wait
             /\ Ev.t <= x.tw + 3 * x.rtw + TOL                       \* BoundedWait
             /\ \/ Ev.t >= x.tw + 3 * x.rtw - TOL                    \* the timeout
                \/ Cause(x, Ev.t)                                    \* EarlyOnlyWithCause
-         /\ o' = [o EXCEPT ![Ev.ep].wait = FALSE, ![Ev.ep].res = FALSE]
+         /\ o' = [o EXCEPT ![Ev.ep].wait = FALSE, ![Ev.ep].res = FALSE, ![Ev.ep].lastDone = Ev.t]
 
 \* the harness takes stock (connections still open): no wait may be overdue
 TStock == /\ Is("pgEnd") /\ Adv /\ UNCHANGED <<sN, o>>
